@@ -115,10 +115,9 @@ def build(repo: str) -> Program:
     })
     p.klass('WorkerMailbox', rt + 'worker.py', [], {
         'expecting_single_result': 'bool', 'expected_num_results': 'int',
-        'result': 'opt[Any]', 'num_results': 'int',
+        'result': 'Any', 'num_results': 'int',
         'dest_addr': 'opt[RuntimeAddress]',
         'fresh_results': 'opt[list[tuple[int, opt[Any]]]]',
-        'results': 'list[opt[Any]]',
     })
     p.klass('Worker', rt + 'worker.py', [], {
         '_id': 'int', '_conn': 'Conn',
